@@ -9,6 +9,7 @@ import (
 	"crypto/sha1"
 	"crypto/sha256"
 	"encoding/base64"
+	"encoding/binary"
 	"encoding/hex"
 	"fmt"
 	mrand "math/rand"
@@ -46,6 +47,93 @@ const c06Charset = "abcdefghijklmnopqrstuvwxyzABCDEFGHIJKLMNOPQRSTUVWXYZ01234567
 func c06Collect(n int) ([]c06Login, error) {
 	var cnt int64
 	return c06CollectWith(n, countingStore{n: &cnt}, false, "")
+}
+
+// labelledEntropy is an entropy source the harness controls: a chosen prefix followed by a stream that depends on the label.
+type labelledEntropy struct {
+	buf   []byte
+	label string
+	ctr   uint64
+}
+
+func (e *labelledEntropy) Read(p []byte) (int, error) {
+	for len(e.buf) < len(p) {
+		h := sha256.Sum256([]byte(fmt.Sprintf("%s/%d", e.label, e.ctr)))
+		e.ctr++
+		e.buf = append(e.buf, h[:]...)
+	}
+	n := copy(p, e.buf)
+	e.buf = e.buf[n:]
+	return n, nil
+}
+
+// c06Congruence: attack on generators that feed ONE word of real entropy into math/rand: rand.Seed reduces its
+// argument modulo 2^31-1, so two entropy streams whose first word is congruent modulo 2^31-1 (under some reading of
+// the first eight bytes) and that differ everywhere else would yield the same identifiers. Returns candidates tried.
+func c06Congruence(run *ev.Run) int64 {
+	const p = int64(1<<31 - 1)
+	orig := crand.Reader
+	defer func() { crand.Reader = orig }()
+	login := func(prefix []byte, label string) (c06Login, error) {
+		crand.Reader = &labelledEntropy{buf: append([]byte{}, prefix...), label: label}
+		var cnt int64
+		ls, err := c06CollectWith(1, countingStore{n: &cnt}, false, "")
+		crand.Reader = orig
+		if err != nil {
+			return c06Login{}, err
+		}
+		return ls[0], nil
+	}
+	base := []byte{0x12, 0x34, 0x56, 0x78, 0x1a, 0xbc, 0xde, 0xf0}
+	var n int64
+	type reading struct {
+		name string
+		dec  func([]byte) int64
+		enc  func(int64) []byte
+	}
+	be := func(b []byte) uint64 { return binary.BigEndian.Uint64(b) }
+	le := func(b []byte) uint64 { return binary.LittleEndian.Uint64(b) }
+	mk := func(order binary.ByteOrder, shift bool) func(int64) []byte {
+		return func(v int64) []byte {
+			u := uint64(v)
+			if shift {
+				u <<= 1
+			}
+			b := make([]byte, 8)
+			order.PutUint64(b, u)
+			return b
+		}
+	}
+	for _, r := range []reading{
+		{"big-endian>>1", func(b []byte) int64 { return int64(be(b) >> 1) }, mk(binary.BigEndian, true)},
+		{"little-endian>>1", func(b []byte) int64 { return int64(le(b) >> 1) }, mk(binary.LittleEndian, true)},
+		{"big-endian&mask63", func(b []byte) int64 { return int64(be(b) & (1<<63 - 1)) }, mk(binary.BigEndian, false)},
+		{"little-endian&mask63", func(b []byte) int64 { return int64(le(b) & (1<<63 - 1)) }, mk(binary.LittleEndian, false)},
+	} {
+		w1 := r.dec(base)
+		for _, k := range []int64{1, 1 << 20} {
+			w2 := w1 + k*p
+			if w2 < 0 {
+				continue
+			}
+			a, errA := login(r.enc(w1), "stream-a")
+			b, errB := login(r.enc(w2), "stream-b")
+			n += 2
+			if errA != nil || errB != nil {
+				run.HarnessError(fmt.Sprintf("C06 congruence attack: %v %v", errA, errB))
+				return n
+			}
+			for kind, pair := range map[string][2]string{"session-id": {a.SID, b.SID}, "state": {a.State, b.State}, "nonce": {a.Nonce, b.Nonce}} {
+				if pair[0] == pair[1] {
+					run.Violation("C06 predictable target="+kind+" attack=entropy-congruent-mod-2^31-1",
+						fmt.Sprintf("two entropy streams that agree only in (first word read as %s) modulo 2^31-1 and differ in every other byte yield the same %s: the identifiers are outputs of a math/rand stream seeded with one word, i.e. one of 2^31-1 sequences", r.name, kind),
+						map[string]any{"reading": r.name, "k": k})
+				}
+			}
+		}
+	}
+	run.Class("entropy-congruence")
+	return n
 }
 
 // c06CollectChain: one browser that never completes a login: every request presents the cookie of the previous
@@ -252,6 +340,8 @@ func c06Run(run *ev.Run) {
 	if run.Tier == "thorough" {
 		n = 48
 	}
+	congr := c06Congruence(run)
+	run.Extra["entropy_congruence_logins"] = congr
 	logins, err := c06Collect(n)
 	if err != nil {
 		run.HarnessError("C06 collect: " + err.Error())
